@@ -563,26 +563,24 @@ impl TransactionCoordinator {
         let start_ts = entry.start_ts();
         let write_set: Vec<LogicalId> = entry.write_set().keys().copied().collect();
 
+        // Check and publication are one step with respect to other committers: of two transactions
+        // that wrote the same tuple, the second one to get here must see the first one's entry.
+        let mut tuple_commits = self.tuple_commits.write();
+
         // Check if any tuple we wrote was committed after we started
-        {
-            let tuple_commits = self.tuple_commits.read();
-            for logical_id in &write_set {
-                if let Some(&last_commit_ts) = tuple_commits.get(logical_id)
-                    && last_commit_ts >= start_ts
-                {
-                    return Ok(ValidationResult::Conflict(*logical_id));
-                }
+        for logical_id in &write_set {
+            if let Some(&last_commit_ts) = tuple_commits.get(logical_id)
+                && last_commit_ts >= start_ts
+            {
+                return Ok(ValidationResult::Conflict(*logical_id));
             }
         }
 
         // Validation passed, assign commit timestamp and record tuple commits
         let commit_ts = self.commit_counter.fetch_add(1, Ordering::SeqCst);
 
-        {
-            let mut tuple_commits = self.tuple_commits.write();
-            for logical_id in write_set {
-                tuple_commits.insert(logical_id, commit_ts);
-            }
+        for logical_id in write_set {
+            tuple_commits.insert(logical_id, commit_ts);
         }
 
         Ok(ValidationResult::Allowed)
@@ -711,6 +709,12 @@ impl CommitHandle {
 }
 
 impl TransactionHandle {
+    /// The coordinator this transaction is registered with (none once it has committed or aborted,
+    /// and for handles built without one).
+    pub(crate) fn coordinator(&self) -> Option<TransactionCoordinator> {
+        self.commit_handle.as_ref().map(|h| h.coordinator.clone())
+    }
+
     pub fn id(&self) -> TransactionId {
         self.id
     }
